@@ -25,7 +25,6 @@ func ContainsFold(s, substr string) (ok bool) {
 	}
 
 	first, _ := utf8.DecodeRuneInString(substr)
-	firstFolded := unicode.SimpleFold(first)
 
 	for i := 0; i != -1 && len(s) >= len(substr); {
 		if strings.EqualFold(s[:substrLen], substr) {
@@ -33,10 +32,27 @@ func ContainsFold(s, substr string) (ok bool) {
 		}
 
 		i = strings.IndexFunc(s[1:], func(r rune) (eq bool) {
-			return r == first || r == firstFolded
+			return equalFoldRune(r, first)
 		})
 
 		s = s[1+i:]
+	}
+
+	return false
+}
+
+// equalFoldRune reports whether a and b are equal under Unicode simple case
+// folding.  Note that a fold orbit can contain more than two runes, e.g. 'k',
+// 'K', and the Kelvin sign.
+func equalFoldRune(a, b rune) (ok bool) {
+	if a == b {
+		return true
+	}
+
+	for r := unicode.SimpleFold(a); r != a; r = unicode.SimpleFold(r) {
+		if r == b {
+			return true
+		}
 	}
 
 	return false
